@@ -159,4 +159,43 @@ theorem sendRead_fixed (sr : Bool) (s : LSock) (al : Aligned s) (txt0 : Int) (kb
     | intime t => simp at h
     | never => simp at h
 
+/-! ### cost of the repaired read loop -/
+
+theorem arrive_length : ∀ l : List (Nat × Stamp), (arrive l).1.length + (arrive l).2.length = l.length := by
+  intro l
+  induction l with
+  | nil => simp [arrive]
+  | cons p l ih =>
+    obtain ⟨d, s⟩ := p
+    unfold arrive
+    simp only
+    split <;> simp only [List.length_cons] <;> omega
+
+/-- datagrams written one after the other on one socket (any branch of the listener): the socket
+    afterwards and the total number of `ReadTXTimestamp` calls -/
+def runSock (sr : Bool) : LSock → List KB → LSock × Nat
+  | s, [] => (s, 0)
+  | s, kb :: kbs =>
+    let p := sendRead ⟨true, sr⟩ s 0 kb
+    let r := runSock sr p.sock kbs
+    (r.1, p.nreads + r.2)
+
+theorem runSock_reads (sr : Bool) : ∀ (kbs : List KB) (s : LSock), Aligned s → s.queue = [] →
+    (runSock sr s kbs).2 + (runSock sr s kbs).1.pending.length ≤ 2 * kbs.length + s.pending.length := by
+  intro kbs
+  induction kbs with
+  | nil => intro s _ _; simp [runSock]
+  | cons kb kbs ih =>
+    intro s al hq
+    obtain ⟨al', _, hq', _, _, hn⟩ := sendRead_fixed sr s al 0 kb
+    have hp : (sendRead ⟨true, sr⟩ s 0 kb).sock.pending.length ≤ (arrive s.pending).2.length + 1 := by
+      rw [sendRead_fixed_eq sr s al 0 kb]
+      cases kb <;> simp
+    have := ih _ al' hq'
+    have ha := arrive_length s.pending
+    simp only [runSock, List.length_cons]
+    rw [hn, hq]
+    simp only [List.length_nil]
+    omega
+
 end ScionTime.ListenerTx
